@@ -8,6 +8,7 @@ import RbV.Lemmas.QGramMatches
 import RbV.Lemmas.QGramIndex
 import RbV.Lemmas.QGramExactModel
 import RbV.Thm.GenSrcQGrams
+import RbV.Thm.GenSrcQGramIndex
 import RbV.Lemmas.KChainFwd
 import RbV.Lemmas.LcskppFinal
 import RbV.Lemmas.SdpkppUnion
@@ -169,6 +170,50 @@ theorem occurrence_count_exact (g t : List Nat) (i : Nat) : i ∈ occurrences g 
   mem_occurrences g t i
 
 example : qgramPositions 5 [1, 2] [1, 2, 0, 1, 2] = [0, 3] ∧ qgramPositions 1 [1, 2] [1, 2, 0, 1, 2] = [] := by decide
+
+/-! ### the source text of `QGramIndex::with_max_count` (translated on every run, `Gen/SrcQGramIndex.lean`)
+
+Abstract parameters of the translated definition: `rankNew`, `getWidth` (= `ranks.get_width()`), `qgramsOf q text` (= the
+codes the q-gram iterator yields, `qgrams_source_eq_model`), `prescanAdd` (= `utils::prescan` with `|a, b| a + b`,
+`prescan_source_eq_model` of C04). -/
+
+/-- **`with_max_count` as written in the source = the counting-sort model**: when `bits·q < 64`, every code is below the
+table size and there are fewer than `2^64` q-grams, the translated function never panics (no index out of range, no
+overflow) and returns the model's address table and position list -/
+theorem qgram_index_source_eq_model {αβ ρ τ : Type} (rankNew : αβ → ρ) (getWidth : Nat) (qgramsOf : Nat → τ → List Nat)
+    (prescanAdd : List Nat → Nat → Rs.Res (List Nat)) (q : Nat) (text : τ) (alphabet : αβ) (mc : Nat)
+    (hw : getWidth < 2 ^ 32) (hbq : getWidth * q < 64)
+    (hcodes : ∀ c ∈ qgramsOf q text, c < 2 ^ (getWidth * q)) (hlen : (qgramsOf q text).length < 2 ^ 64)
+    (hps : ∀ l : List Nat, l.sum < 2 ^ 64 → prescanAdd l 0 = Rs.Res.ok (prescan 0 l)) :
+    Gen.SrcQGramIndex.withMaxCount rankNew getWidth qgramsOf prescanAdd q text alphabet mc
+      = Rs.Res.ok (q, (buildIndex (2 ^ (getWidth * q)) mc (qgramsOf q text)).1,
+          (buildIndex (2 ^ (getWidth * q)) mc (qgramsOf q text)).2, rankNew alphabet) :=
+  GenSrcQGramIndex.withMaxCount_eq_model rankNew getWidth qgramsOf prescanAdd q text alphabet mc hw hbq hcodes hlen hps
+
+/-- … hence the index the source text builds lists, for every q-gram over the alphabet, exactly its text positions
+(nothing when it occurs more than `max_count` times) — `qgram_matches` on the translated result = `qgramPositions` -/
+theorem qgram_index_source_positions_exact {αβ ρ : Type} (rankNew : αβ → ρ) (alpha : List Nat)
+    (prescanAdd : List Nat → Nat → Rs.Res (List Nat)) (q : Nat) (text : List Nat) (alphabet : αβ) (mc : Nat)
+    (hq : 0 < q) (hbq : bitsFor alpha.length * q < 64) (ht : ∀ c ∈ text, c ∈ alpha) (hlen : text.length + 1 < 2 ^ 64)
+    (hps : ∀ l : List Nat, l.sum < 2 ^ 64 → prescanAdd l 0 = Rs.Res.ok (prescan 0 l)) :
+    ∃ address pos, Gen.SrcQGramIndex.withMaxCount rankNew (bitsFor alpha.length) (fun q t => fwdCodes alpha q t) prescanAdd
+        q text alphabet mc = Rs.Res.ok (q, address, pos, rankNew alphabet) ∧
+      ∀ gram, (∀ c ∈ gram, c ∈ alpha) → gram.length = q →
+        qgramMatchesModel (address, pos) (code (bitsFor alpha.length) (gram.map (rank alpha)))
+          = qgramPositions mc gram text := by
+  refine ⟨_, _, qgram_index_source_eq_model rankNew (bitsFor alpha.length) (fun q t => fwdCodes alpha q t) prescanAdd q text
+    alphabet mc (by
+      have : bitsFor alpha.length * 1 ≤ bitsFor alpha.length * q := Nat.mul_le_mul_left _ hq
+      omega) hbq (GenSrcQGramIndex.fwdCodes_lt alpha q text ht)
+    (by have := GenSrcQGramIndex.fwdCodes_length_le alpha q text; omega) hps, ?_⟩
+  intro gram hg hgl
+  exact indexModel_eq alpha q mc text gram hq ht hg hgl
+
+-- the translated constructor on "abccbc" over {a, b, c}, q = 2 (codes 1, 6, 10, 9, 6): address table and positions
+example : Gen.SrcQGramIndex.withMaxCount (αβ := Unit) (ρ := Unit) (fun _ => ()) 2
+    (fun q t => fwdCodes [97, 98, 99] q t) (fun l s => Rs.Res.ok (prescan s l)) 2 [97, 98, 99, 99, 98, 99] () 5
+    = Rs.Res.ok (2, (buildIndex 16 5 (fwdCodes [97, 98, 99] 2 [97, 98, 99, 99, 98, 99])).1,
+        (buildIndex 16 5 (fwdCodes [97, 98, 99] 2 [97, 98, 99, 99, 98, 99])).2, ()) := by decide +kernel
 
 /-! ## q-gram index: hits, `exact_matches`, `matches` -/
 
